@@ -476,6 +476,26 @@ def calib_case(st, cfg, data):
     if not _same(getattr(got, field), exp[field]):
       case.bad(f'C07:calibration_histogram:{field}',
                got=getattr(got, field), expected=exp[field])
+  # the same definition through every two-shard merge (accumulator API and
+  # merge_states of the aggregate-fn API)
+  n = len(labels)
+  for cut in range(1, n):
+    try:
+      a = MC.CalibrationHistogram(range=(0, 1), bins=bins).add(
+          list(labels[:cut]), list(preds[:cut]))
+      b = MC.CalibrationHistogram(range=(0, 1), bins=bins).add(
+          list(labels[cut:]), list(preds[cut:]))
+      a.merge(b)
+      merged = a.result()
+    except Exception as e:  # pylint: disable=broad-except
+      case.bad(f'C07:calibration_histogram:merge:raise:{type(e).__name__}',
+               error=repr(e), cut=cut)
+      continue
+    for field in ('num_examples_hist', 'labels_hist', 'predictions_hist',
+                  'bin_edges'):
+      if not _same(getattr(merged, field), exp[field]):
+        case.bad(f'C07:calibration_histogram:merged-shards:{field}',
+                 got=getattr(merged, field), expected=exp[field], cut=cut)
 
 
 # ---- family: rolling statistics --------------------------------------------
